@@ -39,6 +39,14 @@ CHECKS = {
             "Builtin parameter types in single-inheritance chains; multi-base inheritance of a name without own "
             "definitions is unspecified; F20/F21 recorded as known findings with defect-model classifiers.",
             "DESIGN.md §4 C17"),
+    "C01": ("exploration",
+            "runtime monitor at the entry of every generated method body: each bound argument vs the method's own annotation under an independent value semantics",
+            "The oracle travels inside the generated methods: at every entry (direct, recurse, call_next, f.next) each "
+            "argument that is not the method's own default is checked against the annotation's documented meaning, and a "
+            "TypeError from calling a method with a shape it does not accept is flagged too.",
+            "Only definite rejections are alarms (cross-type literal equality is unspecified); a wrong-but-acceptable "
+            "method is C02/C10's matter.",
+            "DESIGN.md §4 C01"),
     "C02": ("exploration",
             "runtime monitor: executable reference model of priority/specificity/latest vs observed method or error; "
             "exhaustive small tier + random programs",
